@@ -674,8 +674,65 @@ def run_implied(ctx, spec):
                             % (spelling, ref_level, v[0], [x[0] for x in errs]), replay)
 
 
+def run_primitive_namesakes(ctx, spec):
+    """A module, a definition or a member named like a primitive (written with a backslash) somewhere in the compilation: the
+    keyword - directly, through an alias, through a chain of aliases, inside anonymous types - still designates the primitive,
+    in every file order; the escaped spelling designates the user's definition where one is in scope."""
+    from ..slicegen.model import PRIMITIVES
+    items = []
+    for P in PRIMITIVES:
+        user = ("module M\ntypealias T = {P}\ntypealias U = T\ntypealias V = Sequence<U>\nstruct S {{ a: T, b: U, c: {P}, d: Sequence<T>, e: V, "
+                "f: Dictionary<string, U>? }}\ninterface I {{ op(p: T, q: {P}) -> U\n op2() -> (x: T, y: Sequence<{P}>) }}\n").format(P=P)
+        namesakes = [
+            ("top-level-module", "module \\%s\nstruct Holder { x: bool }\n" % P),
+            ("nested-module", "module Outer::\\%s\nstruct Holder { x: bool }\n" % P),
+            ("module-with-nested", "module \\%s::Inner\nstruct Holder { x: bool }\n" % P),
+            ("definition-elsewhere", "module Other\nstruct \\%s { x: bool }\nstruct W { w: \\%s }\n" % (P, P)),
+            ("member", "module Other\nstruct W { \\%s: bool }\nenum E { \\%s }\ninterface J { \\%s(\\%s: bool) }\n" % (P, P, P, P)),
+            ("two-modules", "module \\%s\ncustom K\n" % P),
+        ]
+        for nname, other in namesakes:
+            for order in ("user-first", "user-last"):
+                texts = [user, other] if order == "user-first" else [other, user]
+                if nname == "two-modules":
+                    texts = texts + ["module \\%s\nstruct Again { x: bool }\n" % P]
+                items.append((P, nname, order, texts))
+    resps = ctx.worker.batch([{"op": "compile", "files": it[3], "want": ["ast", "codes"]} for it in items])
+    for (P, nname, order, texts), r in zip(items, resps):
+        ctx.note_case(("primitive-namesake", P, nname, order))
+        ctx.stats["primitive_namesake_cases"] += 1
+        replay = {"kind": "library", "call": "compile_from_strings", "files": texts, "family": "primitive-namesakes", "primitive": P, "namesake": nname}
+        if "died" in r or r.get("panic"):
+            p = r.get("panic") or {"message": "worker " + r["died"], "location": "?"}
+            ctx.violate(core.panic_signature(p), "resolution crashed: %s" % p, replay)
+            continue
+        errs = [x for x in r["codes"] if x[1] == "error"]
+        if errs:
+            replay["codes"] = errs[:4]
+            ctx.violate("valid-reference-rejected-primitive-namesake:" + errs[0][0], "the keyword %s (directly or through aliases) was rejected because a %s "
+                        "named \\%s exists: %r" % (P, nname, P, errs[0]), replay)
+            continue
+        kinds = []
+
+        def walk(x):
+            if isinstance(x, dict):
+                if isinstance(x.get("def"), dict) and "primitive" in x["def"]:
+                    kinds.append(x["def"]["primitive"])
+                for v in x.values():
+                    walk(v)
+            elif isinstance(x, list):
+                for v in x:
+                    walk(v)
+        walk(r["files"])
+        # the user file writes the keyword four times directly (T = P, c: P, q: P, Sequence<P>)
+        if kinds.count(P) < 4:
+            replay["primitive_references_found"] = kinds
+            ctx.violate("primitive-keyword-bound-elsewhere", "the keyword %s is written 4 times as a type; %d of the references are bound to the "
+                        "primitive" % (P, kinds.count(P)), replay)
+
+
 def run_shard(ctx, spec):
-    {"implied": run_implied, "repeat": run_repeat, "clash": run_clash, "arr": run_arrangements, "together": run_together, "chains": run_chains, "random": run_random}[spec[0]](ctx, spec)
+    {"primitives": run_primitive_namesakes, "implied": run_implied, "repeat": run_repeat, "clash": run_clash, "arr": run_arrangements, "together": run_together, "chains": run_chains, "random": run_random}[spec[0]](ctx, spec)
 
 
 def plan(tier, seed):
@@ -688,7 +745,7 @@ def plan(tier, seed):
     specs += [("random", n // 16, i) for i in range(16)]
     n = 1600 if tier == "quick" else 100000
     specs += [("repeat", n // 16, i) for i in range(16)]
-    specs += [("clash",), ("implied",)]
+    specs += [("clash",), ("implied",), ("primitives",)]
     return specs
 
 
